@@ -562,6 +562,9 @@ func orchestrate(spec Spec, scs []*Scenario, tier string, nworkers int, only str
 			budget = 15 * time.Minute
 		}
 	}
+	if v, err := strconv.Atoi(os.Getenv("VERIF_BUDGET_S")); err == nil && v > 0 {
+		budget = time.Duration(v) * time.Second // (selfcheck: the uncached exploration needs longer)
+	}
 	deadline := t0.Add(budget)
 	if nworkers <= 0 {
 		nworkers = runtime.NumCPU()
